@@ -26,6 +26,7 @@ func c17specTag(s string) bool {
 func VerifC17_TagTotal() {
 	s := verifString("tag", verifParam("maxlen", 4))
 	got := IsValidTag(s)
+	verifObserve("valid", got)
 	verifAssert(got == c17specTag(s), "tag-predicate-matches-spec")
 	verifCover("end")
 }
@@ -54,6 +55,9 @@ func VerifC17_TagLong() {
 func VerifC17_ValidatorsTotal() {
 	s := verifString("s", verifParam("maxlen", 4))
 	h, r, d := IsValidHost(s), IsValidRepository(s), IsValidDigest(s)
+	verifObserve("host", h)
+	verifObserve("repo", r)
+	verifObserve("digest", d)
 	if s == "" {
 		verifAssert(!h && !r && !d, "empty-string-is-invalid-everywhere")
 	}
@@ -89,6 +93,11 @@ func c17partsValid(ref Reference) bool {
 func VerifC17_ParsePrint() {
 	s := verifString("ref", verifParam("maxlen", 3))
 	ref, err := ParseRelative(s)
+	verifObserve("ok", err == nil)
+	verifObserve("host", ref.Host)
+	verifObserve("repo", ref.Repository)
+	verifObserve("tag", ref.Tag)
+	verifObserve("digest", string(ref.Digest))
 	if err == nil {
 		verifAssert(ref.String() == s, "parse-then-print-is-identity")
 		verifAssert(c17partsValid(ref), "parsed-parts-are-valid")
